@@ -16,9 +16,10 @@ import sympy as sp
 
 from .model import Program, FunctionInfo, ClassInfo, ModuleInfo, AnalysisError, norm
 from .values import *  # noqa: F401,F403
+from .extapi import is_bool_expr
 from .values import (Val, Num, StrV, NoneV, NONE, BoolV, CondV, TupleV, ListV, DictV, SetV, SliceV, ObjV,
                      ClassV, FuncV, ExtV, BoundBuiltin, OpaqueV, SigParamV, SignatureV, Unsupported,
-                     DimensionError, UNITS, UNIT_SYMS, F, NONE_S, fresh_index)
+                     DimensionError, UNITS, UNIT_SYMS, F, NONE_S, fresh_index, mk_ite)
 
 MAX_DEPTH = 14
 MAX_UNROLL = 64
@@ -189,7 +190,7 @@ class Evaluator:
             return self.decide(sp.Or(sp.And(v.cond, ta), sp.And(sp.Not(v.cond), tb)), fr, node)
         if isinstance(v, Num):
             if v.kind == "bool":
-                return self.decide(sp.Ne(v.expr, 0) if not isinstance(v.expr, sp.logic.boolalg.Boolean) else v.expr, fr, node)
+                return self.decide(sp.Ne(v.expr, 0) if not is_bool_expr(v.expr) else v.expr, fr, node)
             if v.expr.is_number:
                 return bool(v.expr != 0)
             return self.decide(sp.Ne(v.expr, 0), fr, node)
@@ -230,8 +231,8 @@ class Evaluator:
             if a.shape == b.shape:
                 shape, axes = a.shape, a.axes
             elif a.shape is not None and b.shape is not None and len(a.shape) == len(b.shape):
-                shape = tuple(x if x == y else sp.Piecewise((x, cond), (y, True)) for x, y in zip(a.shape, b.shape))
-            return Num(sp.Piecewise((a.expr, cond), (b.expr, True)), kind=kind, shape=shape, axes=axes,
+                shape = tuple(x if x == y else mk_ite(cond, x, y) for x, y in zip(a.shape, b.shape))
+            return Num(mk_ite(cond, a.expr, b.expr), kind=kind, shape=shape, axes=axes,
                        backend=a.backend if a.backend == b.backend else None,
                        tag=a.tag if a.tag == b.tag else None, dtype=a.dtype if a.dtype is b.dtype else (a.dtype or b.dtype))
         if isinstance(a, DictV) and isinstance(b, DictV) and set(a.d) == set(b.d):
@@ -798,7 +799,7 @@ class Evaluator:
             if isinstance(e.op, ast.UAdd):
                 return v
             if isinstance(e.op, ast.Invert):
-                if v.kind == "bool" or isinstance(v.expr, sp.logic.boolalg.Boolean):
+                if v.kind == "bool" or is_bool_expr(v.expr):
                     return Num(sp.Not(v.expr), kind="bool", shape=v.shape, axes=v.axes)
                 return v.like(-v.expr - 1)
         if isinstance(v, CondV) and isinstance(e.op, ast.Invert):
